@@ -107,8 +107,12 @@ func (e *FEnc) atCall(st *State, in ssa.Instruction, name string, args []*Val, r
 		}
 		g, err := e.evalBool(env, c.Expr)
 		if err != nil {
-			e.unsupported = append(e.unsupported, fmt.Sprintf("at-call %s %q: %v", c.Pat, c.Src, err))
-			continue
+			if c.When == nil {
+				e.unsupportedOnce(fmt.Sprintf("at-call %s %q: %v", c.Pat, c.Src, err))
+				continue
+			}
+			// locals of the clause do not exist at this call site: it must be one the clause does not apply to
+			g = "false"
 		}
 		e.obligePart("atcall", clauseKey(c, "atcall("+c.Pat+")"), c.Props, in.Pos(), "at "+name+": "+c.Src, reach, g)
 		e.atCallHits[c]++
